@@ -65,4 +65,33 @@ def wrapReply : List Hdr → List Nat → List Nat
 outer bridges -/
 def IsBareAck (f : List Nat) : Prop := ∃ layers acking, f = wrapReply layers (wrapLayer acking 0 [])
 
+/-! ### what the requester may take for a Send Message response
+
+A command is identified by network function AND command number (§5.1): 34h is Send Message only in
+netFn App (response netFn 07h).  Other network functions use the same number (PICMG HPM.1 "Get
+Upgrade Status" is 2Ch/34h).  Like every IPMB message a response counts only if both checksums
+verify (§13.8: a message with a bad checksum is ignored). -/
+
+/-- the header of `f` names the Send Message response -/
+def NamesSendMsgRsp (f : List Nat) : Prop := rspNetfn f = netfnApp + 1 ∧ rspCmd f = cmdSendMessage
+
+instance (f : List Nat) : Decidable (NamesSendMsgRsp f) := by unfold NamesSendMsgRsp; infer_instance
+
+/-- a genuine, intact Send Message response -/
+def IsSendMsgRsp (f : List Nat) : Prop := 6 ≤ f.length ∧ hdrOk f ∧ payOk f ∧ NamesSendMsgRsp f
+
+instance (f : List Nat) : Decidable (IsSendMsgRsp f) := by unfold IsSendMsgRsp; infer_instance
+
+/-- `h` is the header of a Send Message request of the transaction that uses sequence number `seq`:
+addressed to LUN 0 of the bridge, carrying that sequence number (the requester LUN is 2 bits) -/
+def SendMsgOf (seq : Nat) (h : Hdr) : Prop := h.rsLun = 0 ∧ h.rqLun < 4 ∧ h.seq = seq
+
+instance (seq : Nat) (h : Hdr) : Decidable (SendMsgOf seq h) := by unfold SendMsgOf; infer_instance
+
+/-- a bare acknowledgement (at any nesting depth) sent by the bridges of the transaction that uses
+sequence number `seq` -/
+def AckOf (seq : Nat) (f : List Nat) : Prop :=
+  ∃ layers acking, (∀ h ∈ layers, SendMsgOf seq h) ∧ SendMsgOf seq acking ∧
+    f = wrapReply layers (wrapLayer acking 0 [])
+
 end PyIpmi.Spec.Bridges
